@@ -832,7 +832,7 @@ def run(ctx):
     vlib.standard_proof_step(ctx, targets, props, search)
 
     # ------------------------------------------------- correspondence (K)
-    nconv = 140 if ctx.quick else 900
+    nconv = 140 if ctx.quick else 2000
     cases = []          # (family, payload, expr, impl_value, canon_fn)
     dist = {}
 
@@ -956,6 +956,7 @@ def run(ctx):
                       {"log": str(e)}, found_input=False)
         vals = None
     mism = 0
+    fam_mism = {}
     if vals is not None:
         for (fam, payload, expr, iv, canon), s in zip(cases, vals):
             mv = canon(vlib.parse_coq_value(s))
@@ -964,8 +965,9 @@ def run(ctx):
             ctx.cov["traces_validated_against_impl"] += 1
             if ivc != mvc:
                 mism += 1
-                if mism <= 4:
-                    ctx.violation("corr:" + fam.split(":chi")[0], "model-differs",
+                fam_mism[fam] = fam_mism.get(fam, 0) + 1
+                if fam_mism[fam] <= 1:
+                    ctx.violation("corr:" + fam, "model-differs",
                                   "model and implementation disagree on %s" % fam,
                                   {"case": payload, "impl": _short(ivc), "model": _short(mvc)},
                                   found_input=True)
@@ -977,7 +979,7 @@ def run(ctx):
     replay_witnesses(ctx)
 
     # ------------------------------------------------ oracle (always runs)
-    nmaps = 60 if ctx.quick else 500
+    nmaps = 60 if ctx.quick else 1500
     stats = {}
     kinds = {}
     cdir2 = [c for c in corpus if c.get("family") == "map"]
